@@ -91,6 +91,32 @@ def generate(rng, tier, stats):
                     conds.append(K.cond("Canary-Paused", "True", trans=-40, reason=rng.choice(["CrashLoopBackOff", "ImagePullBackOff"])))
                     wprop.bump(stats, "auto-paused under a non-true canary-paused annotation", ann.get(P.A_PAUSED))
         out.append(c)
+    # directed: a canary paused by nothing but the replica set's own Canary-Paused condition (no canary-paused annotation, or
+    # one that does not say "true"), long past its duration in validation mode auto, neither failed nor validated: elapsed time
+    # must not promote it (ninth round: the paused test read the active replica set's conditions)
+    for i in range(24 if tier == "quick" else 240):
+        ann = {}
+        if i % 3 == 1:
+            ann[P.A_PAUSED] = rng.choice(["false", "yes"])
+        if i % 4 == 3:
+            ann[rng.choice([P.A_RU_PAUSED, P.A_FROZEN])] = "true"
+        force = {"scenario": "canary_running", "annotations": ann, "no_faults": True,
+                 "canary": {"duration": rng.choice(["1m", "10s", "5m"]), "validationMode": rng.choice(["auto", "auto", None]),
+                            "noRestartsDuration": None}}
+        c = worldgen.gen_eds_world(rng, stats, force)
+        for o in c["objects"]:
+            if o["kind"] == "ExtendedDaemonSetReplicaSet" and o["metadata"]["name"] == "foo-b":
+                o["metadata"]["creationTimestamp"] = K.ts(rng.choice([-3000, -900, -301]))
+                st = o.setdefault("status", {})
+                st["conditions"] = [K.cond("Canary-Paused", "True", trans=rng.choice([-40, -290]),
+                                           reason=rng.choice(["CrashLoopBackOff", "ImagePullBackOff"]))]
+            if o["kind"] == "ExtendedDaemonSetReplicaSet" and o["metadata"]["name"] == "foo-a" and i % 2 == 0:
+                # the active replica set carries a stale Canary-Paused=False from its own time as a canary
+                st = o.setdefault("status", {})
+                st["conditions"] = [x for x in (st.get("conditions") or []) if x["type"] != "Canary-Paused"] + \
+                    [K.cond("Canary-Paused", "False", trans=-2000)]
+        wprop.bump(stats, "directed: paused by its own condition past the duration", ann.get(P.A_PAUSED))
+        out.append(c)
     return out
 
 
